@@ -55,3 +55,20 @@ add("C02",
     shards={"quick": 16, "thorough": 16},
     require_counts=["todo:Keep", "todo:Repack", "todo:MarkDelete", "todo:KeepMarked", "todo:Delete", "todo:Recover", "todo:unreferenced-pack", "stale_backup_needs_recover"],
     )
+
+add("C13",
+    engine="SCHED",
+    level="model_checking",
+    technique="stateless exhaustive exploration of completion orders of concurrent backend calls (deviation-bounded DFS under a controlled gate scheduler)",
+    design_ref="DESIGN.md §4.2, §5 C13",
+    level_text="Every backend call of the real command parks at a gate; after each release the whole process is run to quiescence (all threads asleep, no CPU time consumed), "
+               "so the parked calls are exactly the enabled transitions. All completion orders with <=2 (quick) / <=3 (thorough) deviations from oldest-first are executed for backup "
+               "(one-blob packs with mid-run index saves, 3-blob packs, default packs), prune with repacking (fast and re-encoding) and copy; across all executions the tree id and "
+               "the set of indexed blobs must be identical, every final state must read back to the source through an independent decoder with packs and index agreeing, "
+               "and quiescence with nothing pending while the command has not returned is reported as deadlock.",
+    level_note="Granularity is the backend call: interleavings inside crossbeam/pariter/rayon are not enumerated (loom/shuttle cannot intercept them, DESIGN.md §8). "
+               "The driver with mid-run index saves has an uncontrolled race on the indexer lock; its executions are checked but it is reported as not exhaustive. One CPU (pariter window 2), RAYON_NUM_THREADS=1.",
+    shards={"quick": 16, "thorough": 16},
+    require_counts=["midrun_index_write", "executions:prune/repack-slow", "executions:copy/one-blob-packs"],
+    require_max={"max_pending_width": 2},
+    )
